@@ -85,6 +85,7 @@ Inductive mexpr :=
 | EIf (cnd th el : mexpr)
 | EMatch (e : mexpr) (arms : list (pat * mexpr))
 | EFor (x : string) (coll body : mexpr)
+| EForMut (x : string) (l : lval) (body : mexpr)   (* for x in &self.<array of structs>: the body may assign to fields of x *)
 | EReturn (e : mexpr)
 | ECatch (e : mexpr).               (* boundary of an inlined non-mutating call: `return` stops here *)
 
@@ -364,6 +365,25 @@ Fixpoint for_loop (body : env -> tree outcome) (x : string) (items : list mval) 
   | it :: r => do (w, en2) <- body ((x, it) :: en); for_loop body x r (skipn 1 en2)
   end.
 
+(* `for x in &<array at l> { body }` where the body mutates the element through x: the elements are written back, also
+   when the body leaves the function early ([ORet], produced by `?` and `return`) *)
+Fixpoint for_mut (body : env -> tree outcome) (x : string) (l : lval) (done rest : list mval) (en : env) {struct rest} : tree outcome :=
+  match rest with
+  | [] => match lval_set l (MArr (rev done)) en with Some en' => Leaf (ONorm MTup0 en') | None => Leaf OType end
+  | it :: r =>
+      tmap (fun o => match o with
+                     | ONorm _ en2 => match en2 with (_, it') :: en3 => for_mut body x l (it' :: done) r en3 | [] => Leaf OType end
+                     | ORet v en2 =>
+                         match lookup x en2 with
+                         | Some it' =>
+                             match lval_set l (MArr (rev done ++ it' :: r)) (skipn (List.length en2 - List.length en) en2) with
+                             | Some en' => Leaf (ORet v en') | None => Leaf OType end
+                         | None => Leaf OType
+                         end
+                     | o' => Leaf o'
+                     end) (body ((x, it) :: en))
+  end.
+
 (* `for x in lo..hi { body }` with n = hi - lo iterations *)
 Fixpoint for_range (body : env -> tree outcome) (x : string) (lo : Z) (n : nat) (en : env) {struct n} : tree outcome :=
   match n with
@@ -565,6 +585,11 @@ Fixpoint eval (e : mexpr) (en : env) {struct e} : tree outcome :=
       do (v, en1) <- eval coll en;
       match v with
       | MArr items => for_loop (eval body) x items en1
+      | _ => Leaf OType
+      end
+  | EForMut x l body =>
+      match lval_get l en with
+      | Some (MArr items) => for_mut (eval body) x l [] items en
       | _ => Leaf OType
       end
   | EReturn a => do (v, en1) <- eval a en; Leaf (ORet v en1)
